@@ -25,6 +25,7 @@ from prompt_toolkit.application import Application
 from prompt_toolkit.application.current import set_app
 from prompt_toolkit.buffer import Buffer, ValidationState
 from prompt_toolkit.document import Document
+from prompt_toolkit.enums import EditingMode
 from prompt_toolkit.filters import Condition
 from prompt_toolkit.history import InMemoryHistory
 from prompt_toolkit.input import DummyInput, create_pipe_input
@@ -41,14 +42,16 @@ LEVEL_TEXT = ("Lean 4 theorems over an executable model of Buffer history naviga
               "returns, prefix hits, reject leaves everything but the cursor, accept appends exactly once, the next "
               "prompt starts from history + [default]; the model is tied to /repo on every run by a differential "
               "correspondence (method level with an item-by-item gated loader, and key level over several prompts of "
-              "one PromptSession) and the property oracle")
+              "one PromptSession in emacs and vi mode) and the property oracle; two known findings are excluded by "
+              "explicit hypotheses (history not loaded yet at accept; stale filter after go_to_history)")
 LEVEL_NOTE = ("trusted: Lean kernel, axioms propext/Classical.choice/Quot.sound only; the hand-written model "
               "(validated by the correspondence, not proved equal to the Python); validators that look at the text only")
 RULE = ("exhaustive: every history of up to N entries over {a, ab, b, a\\nb} x typed prefix in {'', a, ab} x prefix "
         "search on/off x every ordered pair of 17 navigation/edit/accept ops (all state printed after every op); "
         "then seeded random method-level sequences (up to 30 ops, loader items interleaved one by one, scripted "
-        "validators rejecting at positions -2..len+7, validate-while-typing on/off, several accept/reset cycles) and "
-        "seeded random key-level sessions (1-4 prompts on one PromptSession, emacs keys with numeric arguments); a "
+        "validators rejecting at positions -2..len+7, validate-while-typing on/off, several accept/reset cycles), "
+        "seeded random key-level sessions in emacs mode (1-4 prompts on one PromptSession, numeric arguments incl. 0 "
+        "and negative, accept_default) and in vi mode (Esc/i/a, k/j with counts, nG, Enter in both modes); a "
         "case is non-trivial when the history is non-empty and it contains a history navigation op")
 EXHAUSTIVE = True
 EXHAUSTIVE_SCOPE = {"quick": "histories <= 2 entries over {a,ab,b,a\\nb}, typed prefix {'',a,ab}, search on/off, all op pairs from 17 ops",
@@ -62,7 +65,11 @@ TRUSTED = ["harness/c14.py compares (working_index, cursor, validation_state, hi
 ASSUMPTIONS = ["validators are functions of the text only (scripted family: needle + error position rule)",
                "asyncio single-threaded atomicity between awaits; a synchronous validator (validate_async runs in one step)",
                "InMemoryHistory semantics for storage; History.load() yields a snapshot newest-first"]
-PARTIAL_SCOPE = ["completion menu, selection, undo stack, yank-nth-arg, operate-and-get-next are not modelled "
+PARTIAL_SCOPE = ["accept_appends_once compares with the newest *stored* entry only once the history is loaded "
+                 "(known finding: duplicate appended when accepting before the first load)",
+                 "back_forth needs the current entry to pass the remembered filter (known finding: go_to_history / "
+                 "end-of-history can leave the buffer on an entry the filter rejects)",
+                 "completion menu, selection, undo stack, yank-nth-arg, operate-and-get-next are not modelled "
                  "(auto_up/auto_down are modelled for complete_state = None and no selection)",
                  "go_to_history with a negative index is outside the model (vi nG always passes >= 0)",
                  "ThreadedHistory / FileHistory loaders are C13's subject; here the loader is any newest-first item "
@@ -408,6 +415,28 @@ def key_model_line(key):
     return "key " + name
 
 
+def vi_key_bytes(key):
+    name = key[0]
+    if name == "char":
+        return key[1]
+    if name in ("k", "j", "G"):
+        n = key[1]
+        return ("" if (n == 1 and name != "G") else str(n)) + name
+    if name in ("up", "down"):
+        n = key[1]
+        return ("" if n == 1 else str(n)) + KEYSEQ[name]
+    return {"backspace": "\x7f", "escape": "\x1b", "i": "i", "a": "a", "enter": "\r"}[name]
+
+
+def vi_key_model_line(key):
+    name = key[0]
+    if name == "char":
+        return "vkey char " + enc_str(key[1])
+    if name in ("k", "j", "G", "up", "down"):
+        return f"vkey {name} {key[1]}"
+    return "vkey " + name
+
+
 def sess_model_lines(case):
     out = init_lines(case)
     for p in case["prompts"]:
@@ -416,7 +445,7 @@ def sess_model_lines(case):
             continue
         out.append("prompt " + enc_str(p["default"]))
         for key in p["keys"]:
-            out.append(key_model_line(key))
+            out.append(vi_key_model_line(key) if case["kind"] == "vi" else key_model_line(key))
     return out
 
 
@@ -454,13 +483,23 @@ async def sess_trace(case):
 
 async def sess_trace1(case, holder):
     lines, events = [], []
+    vi = case["kind"] == "vi"
     with create_pipe_input() as inp:
         h = InMemoryHistory(list(case["hist"]))
         session = PromptSession(history=h, input=inp, output=DummyOutput(),
                                 validator=ScriptedValidator(list(case["val"])),
                                 enable_history_search=bool(case["ehs"]),
-                                validate_while_typing=bool(case["vwt"]), interrupt_exception=Abort)
+                                validate_while_typing=bool(case["vwt"]), interrupt_exception=Abort,
+                                editing_mode=EditingMode.VI if vi else EditingMode.EMACS)
         b, app = session.default_buffer, session.app
+        if vi:
+            # a lone Escape is flushed by the input / key-processor timeouts: make them immediate
+            app.ttimeoutlen = 0
+            app.timeoutlen = 0
+
+        def navflag():
+            from prompt_toolkit.key_binding.vi_state import InputMode
+            return "1 " if app.vi_state.input_mode == InputMode.NAVIGATION else "0 "
 
         def sn():
             return snap(b, h, app, case["ehs"], False)
@@ -505,24 +544,26 @@ async def sess_trace1(case, holder):
                     lines.append("after-accept")
                     continue
                 before = sn()
-                inp.send_text(key_bytes(key))
-                await settle(task, 10)
+                inp.send_text(vi_key_bytes(key) if vi else key_bytes(key))
+                await settle(task, 12 if vi else 10)
                 check_errors()
+                nv = navflag() if vi else ""
                 if key[0] == "enter" and (task.done() or app.is_done):
                     res = await finish(task)
                     done = True
                     after = sn()
-                    lines.append(snap_line(after, "acc:" + enc_str(res)))
+                    lines.append(snap_line(after, nv + "acc:" + enc_str(res)))
                     events.append({"ev": "accept", "text": before["text"], "result": res, "before": before,
                                    "after": after, "site": "accept-line"})
                 elif key[0] == "enter":
                     after = sn()
-                    lines.append(snap_line(after, "rej"))
+                    lines.append(snap_line(after, nv + "rej"))
                     events.append({"ev": "reject", "text": before["text"], "before": before, "after": after,
-                                   "fresh": before["vstate"] == "U", "site": "accept-line"})
+                                   "fresh": before["vstate"] == "U", "site": "accept-line",
+                                   "vi_nav": nv.startswith("1")})
                 else:
                     after = sn()
-                    lines.append(snap_line(after))
+                    lines.append(snap_line(after, nv + "-"))
                     events.append({"ev": "key", "key": key, "before": before, "after": after})
             if not done:
                 before = sn()
@@ -739,15 +780,72 @@ def rand_sess_case(rng):
             "prompts": prompts}
 
 
+def rand_vi_case(rng):
+    n = rng.choice([0, 1, 2, 3, 3, 4, 6])
+    hist = [rng.choice(RT[1:]) for _ in range(n)]
+    if n >= 2 and rng.random() < 0.4:
+        hist[rng.randrange(n)] = hist[rng.randrange(n)]
+    prompts = []
+    for _ in range(rng.randrange(1, 4)):
+        nav = False
+        keys = []
+        for _ in range(rng.randrange(1, 12)):
+            r = rng.randrange(100)
+            arg = rng.choice([1, 1, 1, 2, 3, 12])
+            if not nav:
+                if r < 30:
+                    keys.append(["char", rng.choice(["a", "b", "x", "c", "k", "j", " "])])
+                elif r < 38:
+                    keys.append(["backspace"])
+                elif r < 55:
+                    keys.append(["up", 1])
+                elif r < 65:
+                    keys.append(["down", 1])
+                elif r < 95:
+                    keys.append(["escape"]); nav = True
+                else:
+                    keys.append(["enter"])
+            else:
+                if r < 30:
+                    keys.append(["k", arg])
+                elif r < 50:
+                    keys.append(["j", arg])
+                elif r < 58:
+                    keys.append(["up", arg])
+                elif r < 65:
+                    keys.append(["down", arg])
+                elif r < 75:
+                    keys.append(["G", rng.choice([1, 1, 2, 3, 5, 9])])
+                elif r < 80:
+                    keys.append(["escape"])
+                elif r < 87:
+                    keys.append(["i"]); nav = False
+                elif r < 94:
+                    keys.append(["a"]); nav = False
+                else:
+                    keys.append(["enter"])
+        if rng.random() < 0.9:
+            keys.append(["enter"])
+        prompts.append({"default": rng.choice(["", "", "", "a", "ab", "a\nb"]), "keys": keys})
+    val = rand_val(rng)
+    if val[0] == 1 and val[1] == "":
+        val[1] = "x"
+    return {"kind": "vi", "hist": hist, "ehs": rng.randrange(2), "vwt": rng.choice([0, 1]), "val": val,
+            "prompts": prompts}
+
+
 def cases(tier, rng):
     maxn = 2 if tier == "quick" else 3
     yield from exhaustive_cases(maxn)
     nbuf = 2500 if tier == "quick" else 60000
     for _ in range(nbuf):
         yield rand_buf_case(rng)
-    nsess = 250 if tier == "quick" else 6000
+    nsess = 200 if tier == "quick" else 5000
     for _ in range(nsess):
         yield rand_sess_case(rng)
+    nvi = 100 if tier == "quick" else 2500
+    for _ in range(nvi):
+        yield rand_vi_case(rng)
 
 
 # ------------------------------------------------------------------ oracle
@@ -756,7 +854,8 @@ def cases(tier, rng):
 NAV_OPS = ("hb", "hf", "goto", "endhist", "aup", "adown", "left", "right", "home", "end", "cur", "ehs",
            "validate", "avalidate")
 EDIT_OPS = ("ins", "delb", "text")
-KEY_NAV = ("up", "down", "c-p", "c-n", "prevhist", "nexthist", "beginhist", "endhist", "left", "right", "home", "end")
+KEY_NAV = ("up", "down", "c-p", "c-n", "prevhist", "nexthist", "beginhist", "endhist", "left", "right", "home", "end",
+           "k", "j", "G", "escape", "i", "a")
 KEY_EDIT = ("char", "backspace")
 STEP_NAV = ("hb", "hf", "aup", "adown", "up", "down", "c-p", "c-n", "prevhist", "nexthist")
 
@@ -817,9 +916,9 @@ class PrefixTracker:
 
 def takes_history_branch(name, before):
     """auto_up / auto_down move inside a multi-line text when they can"""
-    if name in ("aup", "up", "c-p"):
+    if name in ("aup", "up", "c-p", "k"):
         return "\n" not in before["text"][:before["cur"]]
-    if name in ("adown", "down", "c-n"):
+    if name in ("adown", "down", "c-n", "j"):
         return "\n" not in before["text"][before["cur"]:]
     return name in ("hb", "hf", "prevhist", "nexthist", "endhist")
 
@@ -858,24 +957,43 @@ def count_matches(work, idxs, p):
     return sum(1 for j in idxs if p is None or work[j].startswith(p))
 
 
+STALE_SIG = ("go_to_history / end-of-history", "stale search filter: back k / forward k does not return")
+
+
 def check_round_trip(V, site, first, k, s0, s2, desc):
     """back k then forward k (or forward k then back k), k not exceeding the entries available
-    in that direction, from an entry the active filter admits: same entry and text again"""
+    in that direction: same entry and text again.  When the current entry is one the remembered
+    filter rejects (only reachable through the unfiltered jumps go_to_history / end-of-history)
+    a failure is reported under the known-finding signature."""
     if k < 1:
         return
     p = eff_prefix(s0)
-    if p is not None and not s0["text"].startswith(p):
-        return   # only reachable through go_to_history under a stale filter: see report
+    stale = p is not None and not s0["text"].startswith(p)
     idxs = range(0, s0["idx"]) if first == "back" else range(s0["idx"] + 1, len(s0["work"]))
     if k > count_matches(s0["work"], idxs, p):
         return
     if s2["idx"] != s0["idx"] or s2["text"] != s0["text"]:
-        V.add(site, "back k / forward k does not return",
-              f"{desc}: k={k} first={first} from idx={s0['idx']} text={s0['text']!r} prefix={p!r} "
-              f"work={s0['work']!r} -> idx={s2['idx']} text={s2['text']!r}")
+        msg = (f"{desc}: k={k} first={first} from idx={s0['idx']} text={s0['text']!r} prefix={p!r} "
+               f"work={s0['work']!r} -> idx={s2['idx']} text={s2['text']!r}")
+        if stale:
+            V.add(STALE_SIG[0], STALE_SIG[1], msg)
+        else:
+            V.add(site, "back k / forward k does not return", msg)
 
 
-def check_accept(V, site, spec, before, after, out, keep, desc):
+def vi_rest(text, pos):
+    """where the cursor rests in vi navigation mode: never after the last character of a
+    non-empty line (KeyProcessor._fix_vi_cursor_position runs after every handler)"""
+    at_eol = pos >= len(text) or text[pos] == "\n"
+    start = text.rfind("\n", 0, pos) + 1
+    end = text.find("\n", pos)
+    end = len(text) if end < 0 else end
+    if at_eol and end - start > 0:
+        return pos - 1
+    return pos
+
+
+def check_accept(V, site, spec, before, after, out, keep, desc, vi_nav=False):
     text = before["text"]
     pos = verdict(spec, text)
     if pos is not None:
@@ -886,9 +1004,12 @@ def check_accept(V, site, spec, before, after, out, keep, desc):
             V.add(site, "reject changed the text", f"{desc}: {before['work']!r} -> {after['work']!r}")
         if after["storage"] != before["storage"] or after["hist"] != before["hist"]:
             V.add(site, "reject appended to the history", f"{desc}: {before['storage']!r} -> {after['storage']!r}")
-        if before["vstate"] == "U" and after["cur"] != clamp(pos, len(text)):
+        want = clamp(pos, len(text))
+        if vi_nav:
+            want = vi_rest(text, want)
+        if before["vstate"] == "U" and after["cur"] != want:
             V.add(site, "fresh verdict: cursor not at the clamped error position",
-                  f"{desc}: text={text!r} reported={pos} cursor={after['cur']}")
+                  f"{desc}: text={text!r} reported={pos} cursor={after['cur']} wanted={want}")
         return
     if out != "acc:" + enc_str(text):
         V.add(site, "validator passes but the text was not accepted/returned", f"{desc}: text={text!r} out={out}")
@@ -1051,7 +1172,7 @@ def sess_oracle(case, events):
                 del b2
             else:
                 out = ("acc:" + enc_str(e["result"])) if ev == "accept" else "rej"
-                check_accept(V, e["site"], spec, before, after, out, None, desc)
+                check_accept(V, e["site"], spec, before, after, out, None, desc, vi_nav=bool(e.get("vi_nav")))
         elif ev == "abort":
             if after["storage"] != e["before"]["storage"]:
                 V.add("PromptSession.prompt", "abort changed the stored history", desc)
@@ -1075,7 +1196,7 @@ def nontrivial(case):
         return False
     if case["kind"] == "buf":
         return any(op[0] in ("hb", "hf", "aup", "adown", "goto", "endhist") for op in case["ops"])
-    return any(k[0] in ("up", "down", "c-p", "c-n", "prevhist", "nexthist", "beginhist", "endhist")
+    return any(k[0] in ("up", "down", "c-p", "c-n", "prevhist", "nexthist", "beginhist", "endhist", "k", "j", "G")
                for p in case["prompts"] for k in p["keys"])
 
 
